@@ -28,6 +28,22 @@ Theorem final_visits_all_once : forall resp n f s,
 Proof. exact final_visits_all_once_proof. Qed.
 Print Assumptions final_visits_all_once.
 
+(* 2b. the same for WalkParallel::visit as a whole, including its root loop (run by the calling thread
+      before the workers exist): when the visitor answers Quit neither to the error entry of a bad root
+      path nor to an entry, the walk starts from exactly the good roots -- a Skip answer to a root's error
+      skips that root only -- and visits every entry reachable under them exactly once; workers are
+      not started only when there is no good root. *)
+Theorem visit_roots_all_once : forall eresp resp n roots,
+  (forall k, eresp k <> WQuit) -> (forall x, resp x <> WQuit) ->
+  match visit_start eresp n roots with
+  | Some s0 => s0 = init n (good_roots roots) /\
+               forall s, reach resp s0 s -> all_exited s ->
+                         Permutation (visited s) (ids_under_skip resp (good_roots roots))
+  | None => good_roots roots = []
+  end.
+Proof. exact visit_roots_all_once_proof. Qed.
+Print Assumptions visit_roots_all_once.
+
 (* 3. whatever the visitor answers, in every reachable state: no entry was handed out more often
       than it occurs among the reachable entries ... *)
 Theorem visited_submultiset : forall resp n f s, reach resp (init n f) s ->
